@@ -19,6 +19,11 @@ CLIENT_TEXT = {
  "C05": "U1: TLC checks on MqttClient (publisher and session scenarios: acknowledgements for any identifier in any order, duplicated, retry expiries, losses) that a publish Deferred succeeds only in the step receiving the acknowledgement its QoS requires. U2: executions of the real classes judged by the automaton OK_C05 (QoS 0 fired at return, msgId = wire id = callback value, success only with PUBACK / PUBREC-then-PUBCOMP, at most once).",
  "C14": "U1: TLC checks on MqttClient (handshake scenario, every operation and broker packet type in every reachable state of each profile) that operations outside their states/profiles are refused with MQTTStateError without any effect and that unexpected packets change nothing. U2: executions of the real classes judged by the automaton OK_C14 over the derived protocol state, which must also equal the logged protocol.state.",
  "C18": "U1: TLC checks on MqttClient that nothing is written before connect(), after disconnect() or after the loss, that CONNECT/DISCONNECT are written only by connect()/disconnect(), and that only client packet types are written. U2: the bytes written on every connection of every execution of the real classes are reassembled and parsed by the strict TLA+ reference decoder inside the automaton OK_C18.",
+ "C08": "U1: TLC checks on MqttClient (publisher, subscriber scenarios, up to 2-3 consecutive expiries, both protocol versions) that every packet awaiting acknowledgement on a live connection has exactly one retry timer and none otherwise. U2: executions of the real classes judged by the automaton OK_C08: every expiry of the timer of an unacknowledged packet on a live connection re-sends it (same bytes but DUP), DUP rules per version, repeats only on expiry or resumption, spacing >= initial timeout, PUBLISH gaps non-decreasing.",
+ "C09": "U1: TLC checks on MqttClient (publisher, session scenarios; PUBREC/PUBCOMP in any order, duplicated, expiries of both timers, loss and persistent reconnect at every point) that no PUBLISH is written for an identifier whose PUBREL has been written and that PUBREL is written only after PUBREC. U2: executions of the real classes judged by the automaton OK_C09 (per QoS 2 request phases new/pub/rel).",
+ "C10": "U1: TLC checks on MqttClient (publisher, session scenarios, window changed at any time) the window bound at every first transmission and that nothing is stranded while the connection is up. U2: executions of the real classes judged after every step by the automaton OK_C10 (acceptance, FIFO first transmissions with DUP=0, window bound over requests without PUBACK/PUBREC, nothing stranded).",
+ "C13": "U1: TLC checks in every reachable state of MqttClient (publisher, session, keepalive scenarios) that the pending timers are exactly those justified by the state. U2: executions of the real classes judged by the automaton OK_C13 (no write for a settled request, one timer per packet, only notification timers while connected and idle, nothing written after the loss, no timer of a lost connection survives its notification and CONNACK timeout).",
+ "C17": "U1: TLC checks on MqttClient with identifier modulus 3 (counter wraps several times while requests are unfinished) that unfinished requests never share an identifier. U2: executions of the real classes with the counter placed at 65528..65535 judged by the automaton OK_C17 (identifier of a new request not carried by any unfinished request of the factory; wire identifiers in 1..65535).",
 }
 for k, v in CLIENT_TEXT.items():
     CLAIMED[k] = (v, "tla-client", CLIENT_NOTE, TECH_CLIENT, "DESIGN.md 4.3-4.5, 5.3, 7 (%s)" % k)
